@@ -773,6 +773,30 @@ package geom
 //@   ensures loD(b, 3) == old(loD(b, 3)) && hiD(b, 3) == old(hiD(b, 3))
 //@   ensures fresh(b.min) || (base(b.min) == old(base(b.min)) && off(b.min) == old(off(b.min)) && cap(b.min) == old(cap(b.min)))
 //@   ensures fresh(b.max) || (base(b.max) == old(base(b.max)) && off(b.max) == old(off(b.max)) && cap(b.max) == old(cap(b.max)))
+//@   at stmt5: assert loD(b, 0) == old(loD(b, 0))
+//@   at stmt5: assert hiD(b, 0) == old(hiD(b, 0))
+//@   at stmt5: assert loD(b, 1) == old(loD(b, 1))
+//@   at stmt5: assert hiD(b, 1) == old(hiD(b, 1))
+//@   at stmt5: assert loD(b, 2) == old(loD(b, 2))
+//@   at stmt5: assert hiD(b, 2) == old(hiD(b, 2))
+//@   at stmt5: assert loD(b, 3) == old(loD(b, 3))
+//@   at stmt5: assert hiD(b, 3) == old(hiD(b, 3))
+//@   at stmt9: assert loD(b, 0) == old(loD(b, 0))
+//@   at stmt9: assert hiD(b, 0) == old(hiD(b, 0))
+//@   at stmt9: assert loD(b, 1) == old(loD(b, 1))
+//@   at stmt9: assert hiD(b, 1) == old(hiD(b, 1))
+//@   at stmt9: assert loD(b, 2) == old(loD(b, 2))
+//@   at stmt9: assert hiD(b, 2) == old(hiD(b, 2))
+//@   at stmt9: assert loD(b, 3) == old(loD(b, 3))
+//@   at stmt9: assert hiD(b, 3) == old(hiD(b, 3))
+//@   at stmt12: assert loD(b, 0) == old(loD(b, 0))
+//@   at stmt12: assert hiD(b, 0) == old(hiD(b, 0))
+//@   at stmt12: assert loD(b, 1) == old(loD(b, 1))
+//@   at stmt12: assert hiD(b, 1) == old(hiD(b, 1))
+//@   at stmt12: assert loD(b, 2) == old(loD(b, 2))
+//@   at stmt12: assert hiD(b, 2) == old(hiD(b, 2))
+//@   at stmt12: assert loD(b, 3) == old(loD(b, 3))
+//@   at stmt12: assert hiD(b, 3) == old(hiD(b, 3))
 //@   modifies *b, b.min[0:cap(b.min)], b.max[0:cap(b.max)]
 
 //@ func Bounds.extendXYZMFlatCoordsWithXYM
